@@ -75,6 +75,8 @@ def preprocess_inputs(rng, n):
     out = []
     for _ in range(n):
         ls = [rng.choice(heads) + (rng.choice(['', '', ' ', 'x', ' y ']) if rng.random() < 0.3 else '') for _ in range(rng.choice([0, 1, 2, 3, 5]))]
+        if rng.random() < 0.6:
+            ls.insert(rng.randrange(len(ls) + 1), rng.choice(['msgid "a"', 'msgstr "b"', '"c"', '#~ msgid "d"', '#. x', '#, fuzzy', 'x']))
         text = '\n'.join(ls)
         if rng.random() < 0.7 and ls:
             text += '\n'
@@ -189,8 +191,8 @@ def main():
         and 'Driver' not in problems and 'I18n.Model' not in problems and 'I18n.Generated' not in problems
     rng = chk.rng
     T = chk.thorough
+    P.env()                               # installs the tool's extra codecs: the repertoires below need them
     charsets = G.usable_charsets()
-    P.env()
     if 'patch_error' in P._env:
         chk.broken.append({'kind': 'environment', 'problem': 'Checker.patch_environment failed: ' + P._env['patch_error']})
 
@@ -256,7 +258,12 @@ def main():
         chk.note_cases({o for o in outs if o.startswith('ok') and ' n=0' not in o})
         # --- Checker.check: the ISO-8859-1 retry
         lines, impls = [], []
-        for data, _enc in malformed(rng, n_mal // 8):
+        retry = []
+        for data, _cat, cs, _text in wf[:n_mal // 16]:
+            # a well-formed file read under the wrong declaration: undecodable, so the ISO-8859-1 retry is taken
+            if cs not in ('UTF-8', 'ASCII') and cs not in NONCOMPAT and not data.isascii():
+                retry.append((re.sub(rb'charset=[\w\-:.]+', b'charset=' + rng.choice([b'UTF-8', b'ASCII', b'EUC-JP']), data), None))
+        for data, _enc in malformed(rng, n_mal // 8) + retry:
             line, skip = P.check_line(data)
             if skip:
                 continue
